@@ -7,7 +7,9 @@
    A Python AST is a rose tree of node kinds (class names).  The children of a
    node are its AST-valued fields in `ast.iter_fields` order, which is the order
    `ast.NodeVisitor.generic_visit` visits them in.  `Name` nodes carry the
-   (numbered) identifier; identifier 0 is `__debug__`, 1 is `__builtins__`. *)
+   (numbered) identifier; identifier 0 is `__debug__`, 1 is `__builtins__`:
+   the two names that CPython resolves without their being supplied, which the
+   visitor therefore rejects (fix 9296d0f). *)
 From Coq Require Import List Bool Arith String.
 From Cylc Require Import Base.Util.
 Import ListNotations.
@@ -19,19 +21,38 @@ Definition kind_of (t : pyast) : string := match t with Node k _ _ => k end.
 
 Definition whitelisted (wl : list string) (k : string) : bool := mem String.eqb k wl.
 
+Definition DEBUG := 0.
+Definition BUILTINS := 1.
+(* `isinstance(node, ast.Name) and node.id in ('__debug__', '__builtins__')` *)
+Definition reserved_name (k : string) (n : nat) : bool :=
+  String.eqb k "Name" && (Nat.eqb n DEBUG || Nat.eqb n BUILTINS).
+
 (* RestrictedNodeVisitor.visit: raise on the first node (pre-order, fields in
-   order) whose class is not whitelisted; None = the whole tree was visited *)
+   order) whose class is not whitelisted or which is one of the two reserved
+   names; None = the whole tree was visited *)
 Fixpoint first_bad (wl : list string) (t : pyast) : option string :=
   match t with
-  | Node k _ cs =>
+  | Node k n cs =>
       if whitelisted wl k then
-        (fix go (l : list pyast) : option string :=
-           match l with
-           | [] => None
-           | c :: r => match first_bad wl c with Some b => Some b | None => go r end
-           end) cs
+        if reserved_name k n then Some k
+        else
+          (fix go (l : list pyast) : option string :=
+             match l with
+             | [] => None
+             | c :: r => match first_bad wl c with Some b => Some b | None => go r end
+             end) cs
       else Some k
   end.
+
+(* nodes (kind, identifier) in visit order *)
+Fixpoint preorder_nodes (t : pyast) : list (string * nat) :=
+  match t with
+  | Node k n cs => (k, n) :: flat_map preorder_nodes cs
+  end.
+
+(* what makes the visitor raise at a node *)
+Definition bad_node (wl : list string) (p : string * nat) : bool :=
+  negb (whitelisted wl (fst p)) || reserved_name (fst p) (snd p).
 
 (* node kinds in visit order *)
 Fixpoint preorder (t : pyast) : list string :=
@@ -46,11 +67,8 @@ Fixpoint names (t : pyast) : list nat :=
   end.
 
 (* ---------- evaluation of the BoolOp/Name fragment ---------- *)
-(* Values are the objects bound to the supplied variables (numbered), or the
-   constant True that the compiler substitutes for `__debug__`, or the empty
-   dict that restricted_evaluator passes as globals['__builtins__'] (which the
-   name `__builtins__` resolves to unless a variable of that name is supplied). *)
-Inductive value := VObj (id : nat) | VTrue | VBuiltins.
+(* Values are the objects bound to the supplied variables (numbered). *)
+Inductive value := VObj (id : nat).
 
 Inductive outcome :=
 | Rejected (kind : string)     (* error_class raised, error_type = kind *)
@@ -59,8 +77,6 @@ Inductive outcome :=
 | NameErr (n : nat)            (* NameError: name is not defined *)
 | Unsupported.                 (* accepted, but outside the modelled fragment *)
 
-Definition DEBUG := 0.
-Definition BUILTINS := 1.
 
 (* the fragment whose evaluation is modelled: and/or trees over names *)
 Definition fragment_kinds : list string := ["Expression"; "Name"; "Load"; "BoolOp"; "And"; "Or"].
@@ -72,9 +88,9 @@ Section Eval.
   Variable env : nat -> option nat.
   Variable truthy : nat -> bool.
 
-  Definition truth (v : value) : bool := match v with VObj i => truthy i | VTrue => true | VBuiltins => false end.
+  Definition truth (v : value) : bool := match v with VObj i => truthy i end.
   (* objects whose __bool__ gets called *)
-  Definition tested (v : value) : list nat := match v with VObj i => [i] | VTrue | VBuiltins => [] end.
+  Definition tested (v : value) : list nat := match v with VObj i => [i] end.
 
   (* result: (objects whose truth was tested, in order; outcome).
      `a and b and c`: operands are evaluated left to right; every operand but
@@ -85,11 +101,7 @@ Section Eval.
         if String.eqb k "Expression" then
           match cs with [b] => py_eval b | _ => ([], Unsupported) end
         else if String.eqb k "Name" then
-          if Nat.eqb n DEBUG then ([], Val VTrue)
-          else match env n with
-               | Some i => ([], Val (VObj i))
-               | None => if Nat.eqb n BUILTINS then ([], Val VBuiltins) else ([], NameErr n)
-               end
+          match env n with Some i => ([], Val (VObj i)) | None => ([], NameErr n) end
         else if String.eqb k "BoolOp" then
           match cs with
           | Node op _ [] :: values =>
@@ -142,8 +154,6 @@ Fixpoint binop_wf (ops : list string) (t : pyast) : bool :=
 Definition value_eqb (a b : value) : bool :=
   match a, b with
   | VObj x, VObj y => Nat.eqb x y
-  | VTrue, VTrue | VBuiltins, VBuiltins => true
-  | _, _ => false
   end.
 
 Definition outcome_eqb (a b : outcome) : bool :=
